@@ -193,6 +193,13 @@ class Verifier:
             alts = t[4:].split("|")
             k = ctx.choose(len(alts), "alt-of-" + label)
             return self.mkval(ip, alts[k], label, owner)
+        if t.startswith("rawobj:"):      # object without its class invariant (not yet validated)
+            prev = getattr(self, "_skip_inv", False)
+            self._skip_inv = True
+            try:
+                return self.mkobj(ip, t[7:], label, owner, binds)
+            finally:
+                self._skip_inv = prev
         if t.startswith("obj:"):
             names = t[4:].split("|")
             k = ctx.choose(len(names), "class-of-" + label)
@@ -211,8 +218,9 @@ class Verifier:
         o = ctx.alloc(cls, lazy=True, fresh=False, label=label)
         ho = ctx.obj(o)
         for k, v in binds:
-            if v.startswith("$owner"):
-                x = owner
+            if v.startswith("$"):
+                root = v.split(".")[0][1:]
+                x = owner if root == "owner" else self._cur_env[root]
                 for part in v.split(".")[1:]:
                     x = ip.getattr(x, part, True)
                 ho.fields[k] = x
@@ -358,6 +366,8 @@ class Verifier:
             return isbyteslike(v)
         if t in ("str", "hexstr"):
             return isstrlike(v)
+        if t.startswith("rawobj:"):
+            t = t[3:]
         if t.startswith("obj:"):
             if not isinstance(v, SObj):
                 return False
@@ -771,6 +781,7 @@ class Verifier:
         if case:
             types.update(case)
         env = {}
+        self._cur_env = env
         for n in names:
             t = types.get(n)
             if t is None:
